@@ -189,7 +189,7 @@ pub fn hpoa_row(rng: &mut Rng, db: &str, id: &str, nm: &str, qualifier: &str, hp
         rng.pick(&["PCS", "TAS", "IEA"]).to_string(),
         rng.pick(&["", "HP:0003577"]).to_string(),
         rng.pick(&["", "1/2", "HP:0040283", "33%"]).to_string(),
-        rng.pick(&["", "MALE"]).to_string(),
+        rng.pick(&["", "MALE", "NOT"]).to_string(),
         String::new(),
         rng.pick(&["P", "I", "C", "M"]).to_string(),
         "HPO:probinson[2021-06-21]".to_string(),
